@@ -23,7 +23,7 @@ demo() {
   echo "no demonstration found" > /tmp/seedcheck.$$.demo; return 99
 }
 demo; clean_rc=$?
-if ! git -C "$wt" apply "$src/patch.diff"; then echo "SEED $id: patch does not apply"; cleanup; exit 2; fi
+if ! git -C "$wt" apply "$src/patch.diff" 2>/dev/null && ! git -C "$wt" apply --3way "$src/patch.diff"; then echo "SEED $id: patch does not apply"; cleanup; exit 2; fi
 (cd "$wt" && go build ./... && go vet ./... ) >/tmp/seedcheck.$$.build 2>&1; build_rc=$?
 (cd "$wt" && go test -vet=off -count=1 ./... ) >/tmp/seedcheck.$$.tests 2>&1; tests_rc=$?
 demo; broken_rc=$?
